@@ -16,8 +16,11 @@ OWNED = {
 QUEUES = ["qa", "qb", "qc"]
 TOPICS = ["t0", "t1", "t2"]
 PAYLOAD = st.text(alphabet='ab{}":, é\\', max_size=8)
-DELTA = st.one_of(st.integers(-2000, 0), st.integers(1, 999), st.integers(1000, 30000)).flatmap(
-    lambda ms: st.integers(0, 999).map(lambda us: ms / 1000 + us / 1e6))
+# (a few round values on purpose: messages enqueued at one instant with the same delay share their due time to the microsecond)
+DELTA = st.one_of(
+    st.one_of(st.integers(-2000, 0), st.integers(1, 999), st.integers(1000, 30000)).flatmap(
+        lambda ms: st.integers(0, 999).map(lambda us: ms / 1000 + us / 1e6)),
+    st.sampled_from([0.5, 0.5, 2.0, -1.0]))
 
 
 def cancel():
@@ -62,6 +65,13 @@ def history(draw, broker):
     clients = ["c0"] if broker == "mem" else ["c0", "c1"]
     consume, terminal, finish, advance = pieces(queues, clients)
     ops = [draw(enq_op(queues)) for _ in range(draw(st.integers(1, 6)))]
+    if draw(st.integers(0, 4)) == 0:
+        # several messages of different topics due at the very same instant, looked at through a (filtered) DELAYED / NORMAL consumer
+        shared = {"kind": "net", "delta": draw(st.sampled_from([0.5, 2.0, 30.0, -1.0]))}
+        for t in list(draw(st.permutations(TOPICS)))[: draw(st.integers(2, 3))]:
+            ops.append({**draw(enq_op(queues)), "q": queues[0], "topic": t, "delay": shared, "cancel_after": None, "client": "p0"})
+        ops.append({**draw(start_op(queues, clients)), "q": queues[0], "category": draw(st.sampled_from(["DELAYED", "DELAYED", "NORMAL"])),
+                    "topics": draw(st.one_of(st.none(), st.lists(st.sampled_from(TOPICS), min_size=1, max_size=2, unique=True)))})
     first = draw(start_op(queues, clients))
     if draw(st.integers(0, 3)) != 0:
         first = {**first, "q": queues[0], "topics": None}
@@ -88,12 +98,13 @@ def history(draw, broker):
             ops.append(draw(start_op(queues, clients)))
         else:
             ops.append(draw(finish))
-        if draw(st.integers(0, 9)) == 0:
+        if draw(st.integers(0, 14)) == 0:
             # consumption paused and resumed (what a saturated worker does): nothing may be lost or duplicated by it
-            ops.append({"op": "pause", "c": draw(st.integers(0, 3))})
+            pc = draw(st.integers(0, 3))
+            ops.append({"op": "pause", "c": pc})
             for _ in range(draw(st.integers(0, 2))):
                 ops.append(draw(st.one_of(enq_op(queues), advance)))
-            ops.append({"op": "unpause", "c": draw(st.integers(0, 3))})
+            ops.append({"op": "unpause", "c": pc})
         if draw(st.integers(0, 5)) == 0:
             # several consume() calls in flight at once (two clients racing for the same messages), then collected
             for c in draw(st.lists(st.integers(0, 3), min_size=2, max_size=3, unique=True)):
